@@ -441,6 +441,8 @@ def _r_one(i):
         return ("undecided", f"R unit {u.name}: outside the fragment: {e}", [], None)
     except ring.AstLost as e:
         return ("undecided", f"R unit {u.name}: lost anchor: {e}", [], None)
+    except Exception as e:      # a defect of the checker itself must never look like a verdict about the code
+        return ("undecided", f"R unit {u.name}: internal error of the checker: {type(e).__name__}: {e}", [], None)
     vac = None
     try:
         pobs, _ = ring.run_unit(root, u, contracts, seed=seed, perturb=_perturb)
